@@ -55,6 +55,7 @@ structure Flags where
   minfree : Nat := 0
   block : Nat := 1
   iw : Int := 1
+  aff : Bool := false     -- cookie affinity: server lines carry `cookie <value>`
 
 def parseFlags (s : String) : Option Flags :=
   (s.splitOn ",").foldlM (fun (f : Flags) kv =>
@@ -66,9 +67,35 @@ def parseFlags (s : String) : Option Flags :=
     | ["minfree", v] => v.toNat?.map fun n => { f with minfree := n }
     | ["block", v] => v.toNat?.map fun n => { f with block := n }
     | ["iw", v] => v.toInt?.map fun n => { f with iw := n }
-    -- cookie affinity without `session-cookie-preserve`: not read by the dynamic update (only Preserve is)
-    | ["aff", _] => some f
+    -- cookie affinity: not read by the dynamic update (only Preserve is); decides whether cookies are rendered
+    | ["aff", v] => some { f with aff := v = "1" }
+    -- how the generator chose the cookie values (server-name / pod-uid): information only
+    | ["strat", _] => some f
     | _ => none) {}
+
+
+def showState : SState → String
+  | .ready => "ready"
+  | .drain => "drain"
+  | .maint => "maint"
+
+/-- one row of the running table: `name~ip~port~state~weight~cookie` -/
+def showSrvC (s : SrvC) : String :=
+  "~".intercalate [q s.srv.name, q s.srv.ip, toString s.srv.port, showState s.srv.state, toString s.srv.weight, q s.cookie]
+
+def showTable (t : List SrvC) : String := if t.isEmpty then "-" else ",".intercalate (t.map showSrvC)
+
+/-- the table of the harness' simulated HAProxy: loaded from the old server lines (cookie rendered iff affinity),
+every exec applied unless the socket failed (`E`) -/
+def runTable (aff : Bool) (old : List EP) (cmds : List Cmd) (script : List Resp) : List SrvC :=
+  (cmds.zip (List.range cmds.length)).foldl
+    (fun t ci => if script[ci.2]? = some Resp.err then t else applyCmdC t ci.1) (loadC aff old)
+
+/-- `(name, in maintenance, cookie)` of one row of the implementation's running table -/
+def parseRunRow (s : String) : Option (String × Bool × String) :=
+  match s.splitOn "~" with
+  | [n, _, _, st, _, ck] => some (unq n, st = "maint", unq ck)
+  | _ => none
 
 /-- the whole `dynUpdater.update()` for a single changed backend: pair check, then `alignSlots`
 when a reload is needed -/
@@ -79,19 +106,60 @@ def updateOne (f : Flags) (old cur : List EP) (script : List Resp) : Outcome :=
   if o.panic || o.updated then o
   else { o with cur := (alignSlots { cb with eps := o.cur } f.minfree f.block).eps }
 
-/-- `pair <flags> <old> <cur> <script>`; impl: `<0|1> <cmds> <cur'>` or `PANIC` -/
+
+/-! ### history mode: one step = `<reload|dyn|err>[:diff:…][:crtdiff:…]{;K<backend>!<preserve>!<srv>~<state>~<running cookie>~<disk cookie>+…}` -/
+
+structure CkRow where
+  be : String
+  pres : Bool
+  srv : String
+  maint : Bool
+  run : String
+  disk : String
+
+def parseCkRows (entry : String) : List CkRow :=
+  match (entry.drop 1).toString.splitOn "!" with
+  | [be, p, rows] =>
+    (rows.splitOn "+").filterMap fun r =>
+      match r.splitOn "~" with
+      | [n, st, run, disk] => some { be := be, pres := p = "1", srv := n, maint := st = "maint", run := run, disk := disk }
+      | _ => none
+  | _ => []
+
+/-- the cookie clauses on one step, for the backends that render and preserve cookies: a server that is not in
+maintenance holds another cookie than the one on its server line (`running-cookie-differs-from-disk`); a free slot
+does (`free-slot-cookie-differs-from-disk`: nothing observable yet, but the preserve guard of the next update
+compares with the written value — the defect repaired by 91faf0b).  `history_sound_cookie` says: never. -/
+def stepCookieSig (cur : List CkRow) : Option String :=
+  let bad := cur.filter fun r => r.pres && r.run != "?" && r.disk != "?" && r.run != r.disk
+  if bad.any (fun r => !r.maint) then some "running-cookie-differs-from-disk"
+  else if bad.isEmpty then none
+  else some "free-slot-cookie-differs-from-disk"
+
+def histOracle (steps : List String) : Option String :=
+  (steps.foldl (fun (acc : List CkRow × Option String) st =>
+    match acc.2 with
+    | some _ => acc
+    | none =>
+      let parts := st.splitOn ";"
+      let head := parts.headD ""
+      let rows := (parts.drop 1).flatMap parseCkRows
+      let sig : Option String :=
+        if (head.splitOn ":crtdiff:").length > 1 then some "certificate-differs-from-disk"
+        else if (head.splitOn ":").length > 1 then some "running-differs-from-disk-after-update"
+        else stepCookieSig rows
+      (rows, sig)) ([], none)).2
+
+/-- `pair <flags> <old> <cur> <script>`; impl: `<0|1> <cmds> <cur'> <running table>` or `PANIC` -/
 def handle (args : List String) (impl : String) : Verdict :=
   match args with
   | "hist" :: _faults :: ops =>
     -- end-to-end form: the theorems (pair_sound lifted over histories: every step is a reload, which
-    -- loads the files, or a pair update, which keeps running = disk) predict "no difference, ever"
-    let steps := impl.splitOn ","
-    let bad := steps.find? fun st => (st.splitOn ":").length > 1
-    let sig : Option String := bad.map fun st =>
-      if (st.splitOn ":crtdiff:").length > 1 then "certificate-differs-from-disk"
-      else "running-differs-from-disk-after-update"
+    -- loads the files, or a pair update, which keeps running = disk; history_sound_cookie for the cookie of every
+    -- server) predict "no difference, ever"
     let skip := impl.startsWith "skip:"
-    { model := "all-steps-equal", agree := skip || (bad.isNone && !impl.startsWith "panic"),
+    let sig := histOracle (impl.splitOn ",")
+    { model := "all-steps-equal", agree := skip || (sig.isNone && !impl.startsWith "panic"),
       oracle := if skip then none else if impl.startsWith "panic" then some "panic" else sig,
       trivial := ops.length < 6 }
   | ["pair", fl, olds, curs, sc] =>
@@ -99,22 +167,28 @@ def handle (args : List String) (impl : String) : Verdict :=
     | some f, some old, some cur, some script =>
       let m := updateOne f old cur script
       let mtxt := if m.panic then "PANIC" else
-        (if m.updated then "1" else "0") ++ " " ++ showCmds m.cmds ++ " " ++ showEPs m.cur
+        (if m.updated then "1" else "0") ++ " " ++ showCmds m.cmds ++ " " ++ showEPs m.cur ++ " " ++
+          showTable (runTable f.aff old m.cmds script)
       let ob : Back := { eps := old, dynUpdate := f.dyn, resolver := f.res, cookiePreserve := f.pres, initialWeight := f.iw }
       -- oracle on the implementation's outcome
-      let io : Option Outcome :=
-        if impl = "PANIC" then some ⟨false, [], [], true⟩ else
+      let io : Option (Outcome × List (String × Bool × String)) :=
+        if impl = "PANIC" then some (⟨false, [], [], true⟩, []) else
         match impl.splitOn " " with
-        | [u, cs, eps] => do
-          pure ⟨u = "1", ← parseList parseEP eps, ← parseList parseCmd cs, false⟩
+        | [u, cs, eps, run] => do
+          pure (⟨u = "1", ← parseList parseEP eps, ← parseList parseCmd cs, false⟩, ← parseList parseRunRow run)
         | _ => none
       match io with
       | none => { model := mtxt, agree := false, oracle := some "unparsable-implementation-output" }
-      | some o =>
+      | some (o, run) =>
         -- responses consumed by the implementation = first |cmds| entries of the script
         let used := script.take o.cmds.length
-        { model := mtxt, agree := mtxt = impl, oracle := oracle ob (used.all (·.ok)) o,
-          trivial := o.cmds.isEmpty }
+        let ck := cookieScope f.aff f.pres
+        -- Spec with the cookie column on the implementation's commands and endpoints, then the same clause on the
+        -- table its simulated HAProxy reports
+        let orc := match oracleC ck ob (used.all (·.ok)) o with
+          | some c => some c
+          | none => if o.updated && !f.res && runRowsDiffer ck run o.cur then some "running-cookie-differs-from-disk" else none
+        { model := mtxt, agree := mtxt = impl, oracle := orc, trivial := o.cmds.isEmpty }
     | _, _, _, _ => bad "parse"
   | _ => bad "C02"
 
